@@ -20,7 +20,6 @@ package ctlog
 
 import (
 	"bytes"
-	"context"
 	"crypto/sha256"
 	"crypto/x509"
 	"encoding/json"
@@ -66,20 +65,148 @@ type c09Item struct {
 	Tuple     *c09Tuple `json:"tuple,omitempty"`
 	Malformed string    `json:"malformed,omitempty"`
 	Endpoint  string    `json:"endpoint,omitempty"`
+	Fault     *c09Fault `json:"fault,omitempty"`
+}
+
+// c09Fault is one issuer-storage fault scenario: an acceptable chain of the
+// given shape whose Issuer-th issuer object (1 = first certificate after the
+// leaf in the verified chain) suffers one failing Upload, one failing Fetch
+// (transient, not "not found"), or both, at its first use.
+type c09Fault struct {
+	Shape  string `json:"shape"`  // leaf_i1 | leaf_i2 | precert_presign
+	Issuer int    `json:"issuer"` // 1-based position in the verified chain
+	Fail   string `json:"fail"`   // upload | fetch | both
 }
 
 func (it c09Item) Label() string {
-	if it.Tuple != nil {
+	switch {
+	case it.Tuple != nil:
 		return it.Tuple.Label()
+	case it.Fault != nil:
+		return fmt.Sprintf("issuer-fault/shape=%s/issuer=%d/fail=%s", it.Fault.Shape, it.Fault.Issuer, it.Fault.Fail)
 	}
 	return "malformed=" + it.Malformed + "/ep=" + it.Endpoint
 }
 
 func (it c09Item) scenario() string {
-	if it.Tuple != nil {
+	switch {
+	case it.Tuple != nil:
 		return "chain"
+	case it.Fault != nil:
+		return it.Label()
 	}
 	return "malformed"
+}
+
+var c09FaultShapes = []struct {
+	name    string
+	issuers int
+	tuple   c09Tuple
+}{
+	{"leaf_i1", 2, c09Tuple{Root: "accepted", Shape: "leaf_i1", NotAfter: "start+1s", Type: "cert", Endpoint: "add-chain", EKU: "serverAuth"}},
+	{"leaf_i2", 3, c09Tuple{Root: "accepted", Shape: "leaf_i2", NotAfter: "start+1s", Type: "cert", Endpoint: "add-chain", EKU: "serverAuth"}},
+	{"precert_presign", 3, c09Tuple{Root: "accepted", Shape: "leaf_i1", NotAfter: "start+1s", Type: "precert", Endpoint: "add-pre-chain", PreSign: true, EKU: "serverAuth"}},
+}
+
+func c09EnumerateFaults() []c09Item {
+	var out []c09Item
+	for _, sh := range c09FaultShapes {
+		for i := 1; i <= sh.issuers; i++ {
+			for _, f := range []string{"upload", "fetch", "both"} {
+				out = append(out, c09Item{Fault: &c09Fault{Shape: sh.name, Issuer: i, Fail: f}})
+			}
+		}
+	}
+	return out
+}
+
+// c09RunFault runs one issuer-storage fault scenario on a fresh log: submit an
+// acceptable chain while the chosen issuer object's first Upload/Fetch fails,
+// resubmit the identical chain, then submit a sibling leaf under the same
+// issuers. Every step is held to: rejected with 5xx and no leaf, or accepted
+// with the leaf correct and every certificate of the verified chain retrievable.
+func c09RunFault(rp *verifmc.Report, it c09Item) {
+	c09InitPKI()
+	c09InstallClock()
+	r := &c09Runner{rp: rp, items: []c09Item{it}, env: c09NewEnv(), codes: map[string][2]int{}}
+	defer r.env.close()
+	env := r.env
+	var tu *c09Tuple
+	for _, sh := range c09FaultShapes {
+		if sh.name == it.Fault.Shape {
+			t := sh.tuple
+			tu = &t
+		}
+	}
+	if tu == nil {
+		c09Fail("unknown fault shape %q", it.Fault.Shape)
+	}
+	if _, err := env.setRoots(c09PKIs["accepted"].root, c09PKIs["removed"].root); err != nil {
+		c09Fail("SetRootsFromPEM: %v", err)
+	}
+	chainA, chainB := c09BuildChain(*tu, 0), c09BuildChain(*tu, 1)
+	ok, effective, why := c09Predicate(chainA, env.roots, tu.Endpoint)
+	if !ok || it.Fault.Issuer < 1 || it.Fault.Issuer >= len(effective) {
+		c09Fail("%s: base chain not acceptable or issuer index out of range: %s", it.Label(), why)
+	}
+	key := fmt.Sprintf("issuer/%x", sha256.Sum256(effective[it.Fault.Issuer].Raw))
+	if it.Fault.Fail == "upload" || it.Fault.Fail == "both" {
+		env.be.failUpload[key] = 1
+	}
+	if it.Fault.Fail == "fetch" || it.Fault.Fail == "both" {
+		env.be.failFetch[key] = 1
+	}
+	seen := map[string]int64{} // sha256(leaf DER) -> leaf index it was sequenced at
+	var codes []int
+	for step, chain := range [][][]byte{chainA, chainA, chainB} {
+		where := []string{"step 1 (first submission, fault armed)", "step 2 (identical resubmission)", "step 3 (sibling leaf, same issuers)"}[step]
+		s := &c09Sub{Endpoint: tu.Endpoint, Chain: chain, LeafDER: chain[0], Body: c09Body(chain)}
+		oldN := env.treeSize()
+		armed := env.be.armed(key)
+		env.submitAll([]*c09Sub{s})
+		newN := env.treeSize()
+		rp.Add("submissions", 1)
+		codes = append(codes, s.code)
+		leaves, err := env.readLeaves(0, newN)
+		if err != nil {
+			r.viol(it, "%s: reading the sequenced leaves back: %v", where, err)
+			return
+		}
+		if s.code != 200 {
+			if s.code < 500 || s.code > 599 {
+				r.viol(it, "%s: acceptable chain rejected with status %d, which is not a server error, under a storage fault: %s", where, s.code, c09Clip(s.resp))
+			}
+			if newN != oldN {
+				r.viol(it, "%s: rejected with status %d but the tree grew from %d to %d", where, s.code, oldN, newN)
+			}
+			if !armed {
+				// No fault was pending: storage works and the chain is acceptable.
+				r.viol(it, "%s: acceptable chain rejected with status %d although no storage fault was pending: %s", where, s.code, c09Clip(s.resp))
+			}
+			continue
+		}
+		rp.Add("accepted", 1)
+		_, eff, _ := c09Predicate(chain, env.roots, tu.Endpoint)
+		sct, err := c09ParseSCT(s.resp)
+		if err != nil {
+			r.viol(it, "%s: unparsable add-chain response %s: %v", where, c09Clip(s.resp), err)
+			continue
+		}
+		h := fmt.Sprintf("%x", sha256.Sum256(chain[0]))
+		if prev, dup := seen[h]; dup {
+			if sct.index != prev || newN != oldN {
+				r.viol(it, "%s: resubmission of a sequenced leaf got index %d (first %d), tree %d -> %d", where, sct.index, prev, oldN, newN)
+				continue
+			}
+		} else if sct.index != oldN || newN != oldN+1 {
+			r.viol(it, "%s: accepted with leaf_index %d, tree %d -> %d (expected exactly one new leaf at %d)", where, sct.index, oldN, newN, oldN)
+			continue
+		}
+		seen[h] = sct.index
+		r.checkAccepted(it, where, sct, leaves[sct.index], eff)
+	}
+	rp.Eval(it.Label())
+	rp.Sample(map[string]any{"case": it.Label(), "status_step1_2_3": codes, "faults_injected": env.be.injected})
 }
 
 func c09Enumerate() []c09Item {
@@ -187,7 +314,7 @@ func c09RunBatch(rp *verifmc.Report, items []c09Item) {
 		if err := env.checkGetRoots(); err != nil {
 			r.viol(first, "phase %d after root reload: %v", phase, err)
 		}
-		if stored, err := env.be.Fetch(context.Background(), "_roots.pem"); err != nil || !bytes.Equal(stored, pemBytes) {
+		if stored, err := env.be.peek("_roots.pem"); err != nil || !bytes.Equal(stored, pemBytes) {
 			r.viol(first, "phase %d: _roots.pem in storage does not hold the reloaded roots (err=%v)", phase, err)
 		}
 		r.phase(phase)
@@ -283,27 +410,7 @@ func (r *c09Runner) phase(phase int) {
 				continue
 			}
 		}
-		ref, err := c09DeriveEntry(effective)
-		if err != nil {
-			c09Fail("%s: reference derivation failed: %v", it.Label(), err)
-		}
-		exp := &verifmc.RefEntry{Timestamp: int64(sct.Timestamp), Index: sct.index, IsPrecert: ref.IsPrecert,
-			IssuerKeyHash: ref.IssuerKeyHash, Cert: ref.Cert, PreCert: ref.PreCert, Fingerprints: ref.Fingerprints}
-		if d := c09Diff(exp, stored); d != "" {
-			r.viol(it, "phase %d: stored leaf %d differs from the reference RFC 6962 entry: %s", phase, sct.index, d)
-		}
-		for j, der := range ref.Issuers {
-			key := fmt.Sprintf("issuer/%x", sha256.Sum256(der))
-			got, err := env.be.Fetch(context.Background(), key)
-			if err != nil {
-				r.viol(it, "phase %d: chain certificate %d (%s) not retrievable: %v", phase, j+1, key, err)
-			} else if !bytes.Equal(got, der) {
-				r.viol(it, "phase %d: %s holds different bytes than chain certificate %d", phase, key, j+1)
-			}
-		}
-		if err := c09VerifySCT(env.pub, sct, ref); err != nil {
-			r.viol(it, "phase %d: %v", phase, err)
-		}
+		r.checkAccepted(it, fmt.Sprintf("phase %d", phase), sct, stored, effective)
 	}
 	// Every new leaf belongs to exactly one accepted submission.
 	if int64(accepted) != newN-oldN {
@@ -325,6 +432,34 @@ func (r *c09Runner) phase(phase int) {
 	}
 }
 
+// checkAccepted holds an accepted submission to the property: the stored leaf
+// equals the reference RFC 6962 entry of the effective (verified) chain, every
+// chain certificate is retrievable under issuer/<sha256>, and the SCT verifies.
+func (r *c09Runner) checkAccepted(it c09Item, where string, sct *c09SCT, stored *verifmc.RefEntry, effective []*x509.Certificate) {
+	env := r.env
+	ref, err := c09DeriveEntry(effective)
+	if err != nil {
+		c09Fail("%s: reference derivation failed: %v", it.Label(), err)
+	}
+	exp := &verifmc.RefEntry{Timestamp: int64(sct.Timestamp), Index: sct.index, IsPrecert: ref.IsPrecert,
+		IssuerKeyHash: ref.IssuerKeyHash, Cert: ref.Cert, PreCert: ref.PreCert, Fingerprints: ref.Fingerprints}
+	if d := c09Diff(exp, stored); d != "" {
+		r.viol(it, "%s: stored leaf %d differs from the reference RFC 6962 entry: %s", where, sct.index, d)
+	}
+	for j, der := range ref.Issuers {
+		key := fmt.Sprintf("issuer/%x", sha256.Sum256(der))
+		got, err := env.be.peek(key)
+		if err != nil {
+			r.viol(it, "%s: accepted (leaf %d) but chain certificate %d (%s) is not retrievable: %v", where, sct.index, j+1, key, err)
+		} else if !bytes.Equal(got, der) {
+			r.viol(it, "%s: %s holds different bytes than chain certificate %d", where, key, j+1)
+		}
+	}
+	if err := c09VerifySCT(env.pub, sct, ref); err != nil {
+		r.viol(it, "%s: %v", where, err)
+	}
+}
+
 // chainFromStored rebuilds the chain the log recorded (fingerprints -> issuer
 // objects) and checks it is a verified chain from the leaf to an accepted root.
 func (r *c09Runner) chainFromStored(s *c09Sub, stored *verifmc.RefEntry) ([]*x509.Certificate, error) {
@@ -334,7 +469,7 @@ func (r *c09Runner) chainFromStored(s *c09Sub, stored *verifmc.RefEntry) ([]*x50
 	}
 	chain := []*x509.Certificate{leaf}
 	for i, fp := range stored.Fingerprints {
-		der, err := r.env.be.Fetch(context.Background(), fmt.Sprintf("issuer/%x", fp))
+		der, err := r.env.be.peek(fmt.Sprintf("issuer/%x", fp))
 		if err != nil {
 			return nil, fmt.Errorf("fingerprint %d: %v", i, err)
 		}
@@ -413,10 +548,14 @@ func TestVerifC09(t *testing.T) {
 	}()
 	if rf := rp.Replay(); rf != nil {
 		var it c09Item
-		if err := json.Unmarshal(rf.Input, &it); err != nil || (it.Tuple == nil && it.Malformed == "") {
+		if err := json.Unmarshal(rf.Input, &it); err != nil || (it.Tuple == nil && it.Malformed == "" && it.Fault == nil) {
 			c09Fail("replay input is not a C09 item: %v", err)
 		}
-		c09RunBatch(rp, []c09Item{it})
+		if it.Fault != nil {
+			c09RunFault(rp, it)
+		} else {
+			c09RunBatch(rp, []c09Item{it})
+		}
 		return
 	}
 	all := c09Enumerate()
@@ -434,5 +573,19 @@ func TestVerifC09(t *testing.T) {
 			break
 		}
 		c09RunBatch(rp, all[lo:min(lo+c09BatchSize, len(all))])
+	}
+	// Issuer-storage fault sub-enumeration (bounded-exhaustive): accepted shape x
+	// issuer object of the verified chain x {first Upload fails, first Fetch fails, both}.
+	faults := c09EnumerateFaults()
+	rp.Note("issuer_fault_enumeration", fmt.Sprintf("%d scenarios: shapes {leaf+intermediate, leaf+2 intermediates, precertificate with signing certificate} x every issuer object of the verified chain (incl. the omitted root) x {first Upload fails once, first Fetch fails once with a transient error, both}; each: submit, resubmit identical chain, submit sibling leaf, on one fresh log", len(faults)))
+	for _, it := range faults {
+		batch++
+		if !rp.Mine(batch) {
+			continue
+		}
+		if rp.Expired() {
+			break
+		}
+		c09RunFault(rp, it)
 	}
 }
